@@ -1,3 +1,11 @@
 """vcheck configuration of work group B: PROPS = {"Cxx": {"families": [fam("name", quick_n, thorough_n)], "defects": ["Dn"]}}"""
 
-PROPS = {}
+PROPS = {
+    "C01": {
+        "families": [fam("c01.matchall", 1500, 20000, seeds=4)],
+        "defects": ["D1"],
+        "rule": "each op is a whole scenario (1-4 lists, 1-60 parsed network rules with their storage indexes, one request, oracle tables) "
+                "run through the real NetworkEngine.MatchAll, the model engine (shortcut/domain/sequential tables, djb2) and the linear scan; "
+                "answers are sorted sets of rule texts; non-trivial = a non-empty answer; distinct by hash of the op input",
+    },
+}
